@@ -1592,8 +1592,15 @@ func (p *PubSub) publishMessageBatch(batchAndOpts messageBatchAndPublishOptions)
 		p.tracer.DeliverMessage(msg)
 		p.notifySubs(msg)
 	}
+	// local-only messages are delivered to our own subscribers only
+	toSend := make([]*Message, 0, len(batchAndOpts.messages))
+	for _, msg := range batchAndOpts.messages {
+		if !msg.Local {
+			toSend = append(toSend, msg)
+		}
+	}
 	// We type checked when pushing the batch to the channel
-	p.rt.(BatchPublisher).PublishBatch(batchAndOpts.messages, batchAndOpts.opts)
+	p.rt.(BatchPublisher).PublishBatch(toSend, batchAndOpts.opts)
 }
 
 type addTopicReq struct {
